@@ -1,6 +1,7 @@
 """gentoo ebuild specific base package class"""
 
 from collections import UserString
+from functools import lru_cache
 
 from snakeoil.compatibility import cmp
 from snakeoil.delayed import regexp
@@ -352,8 +353,39 @@ class CPV(base.base):
             sf(self, "key", cpvstr)
             sf(self, "package", "-".join(pkg_chunks))
 
+    @staticmethod
+    @lru_cache(maxsize=8192)
+    def _version_key(version):
+        """Hashable key shared by all spellings of a version that ver_cmp() treats as equal."""
+        if version is None:
+            return None
+        parts = version.split("_")
+        comps = parts[0].split(".")
+        letter = ""
+        if comps[-1][-1].isalpha():
+            letter = comps[-1][-1]
+            comps[-1] = comps[-1][:-1]
+        # the first component and components without a leading zero compare as
+        # integers, the others as strings with trailing zeros stripped
+        key = [int(comps[0])]
+        key.extend(x.rstrip("0") if x[0] == "0" else int(x) for x in comps[1:])
+        sufs = []
+        for x in parts[1:]:
+            match = suffix_regexp.match(x)
+            sufs.append((match.group(1), int("0" + match.group(2))))
+        return tuple(key), letter, tuple(sufs)
+
     def __hash__(self):
-        return hash(self.cpvstr)
+        # has to agree with __eq__: 1.0 == 1.00, 1_alpha == 1_alpha0, 1-r0 == 1
+        rev = self.revision
+        return hash(
+            (
+                self.category,
+                self.package,
+                self._version_key(self.version),
+                rev._revint if rev else 0,
+            )
+        )
 
     def __repr__(self):
         return f"<{self.__class__.__name__} cpvstr={getattr(self, 'cpvstr', None)} @{id(self):#8x}>"
